@@ -30,6 +30,16 @@ impl Driven for D {
          _ => panic!("verif harness: unknown relation {}", rel),
       }
    }
+   fn clear(&mut self, rel: &str) {
+      match rel {
+         "a" => { self.0.a = Default::default(); },
+         "cpy" => { self.0.cpy = Default::default(); },
+         "val" => { self.0.val = Default::default(); },
+         "isc" => { self.0.isc = Default::default(); },
+         "ist" => { self.0.ist = Default::default(); },
+         _ => panic!("verif harness: unknown relation {}", rel),
+      }
+   }
    fn run(&mut self) { self.0.run(); }
    fn dump(&self) -> Value {
       let mut m: Vec<(String, Value)> = vec![];
